@@ -91,6 +91,19 @@ enum K {
     BadFlagAsync,
 }
 
+/// expectation "any negative result"
+const ANY_ERROR: i32 = i32::MIN;
+
+fn handle_mode_of(name: &str) -> u8 {
+    if name.contains("read-only-handle") {
+        1
+    } else if name.contains("write-only-handle") {
+        2
+    } else {
+        0
+    }
+}
+
 #[derive(Clone, Copy, Debug, Hash, PartialEq, Eq)]
 enum St {
     Pushed,
@@ -381,7 +394,7 @@ impl USys {
                 for &i in &order {
                     let want = self.expected_result(i);
                     wants.push(want);
-                    if want == res && matched.is_none() {
+                    if (want == res || (want == ANY_ERROR && res < 0)) && matched.is_none() {
                         matched = Some(i);
                     }
                 }
@@ -401,6 +414,11 @@ impl USys {
         Ok(())
     }
 
+    /// 0 = the ring works on a read-write handle, 1 = on a read-only one, 2 = on a write-only one
+    fn handle_mode(&self) -> u8 {
+        handle_mode_of(&self.cfg.name)
+    }
+
     fn expected_result(&self, i: usize) -> i32 {
         let s = &self.subs[i];
         match s.st {
@@ -411,6 +429,11 @@ impl USys {
                     return EBADF;
                 }
                 match &s.k {
+                    // the synchronous API refuses a read through a handle opened without read
+                    // access, and a write through one opened without write access: so must the
+                    // ring (with whatever error), without touching buffer or file
+                    K::Read { .. } if self.handle_mode() == 2 => ANY_ERROR,
+                    K::Write { .. } if self.handle_mode() == 1 => ANY_ERROR,
                     K::Read { off, len } => {
                         let st = (*off as usize).min(self.content.len());
                         let en = (st + len).min(self.content.len());
@@ -444,6 +467,14 @@ impl USys {
                     return Err(Violation::new(
                         "buffer-touched",
                         format!("operation user_data={} completed with an error but its buffer was modified: {:?}", s.ud, buf),
+                    ));
+                }
+            }
+            (St::InFlight, K::Read { .. }) if self.file_open && self.expected_result(i) == ANY_ERROR => {
+                if buf.iter().any(|b| *b != SENTINEL) {
+                    return Err(Violation::new(
+                        "buffer-touched",
+                        format!("read user_data={} through a handle opened without read access completed with an error but its buffer was modified: {:?}", s.ud, buf),
                     ));
                 }
             }
@@ -511,7 +542,8 @@ impl USys {
         for i in 0..self.cfg.rings {
             self.rings[i] = Some(IoUring::new(self.cfg.depth_ring).map_err(|e| Violation::new("new-ring", format!("IoUring::new after crash failed: {e}")))?);
         }
-        let f = sfs::OpenOptions::new().read(true).write(true).open("/f").map_err(|e| Violation::new("reopen", format!("reopening /f after crash failed: {e}")))?;
+        let mode = self.handle_mode();
+        let f = sfs::OpenOptions::new().read(mode != 2).write(mode != 1).open("/f").map_err(|e| Violation::new("reopen", format!("reopening /f after crash failed: {e}")))?;
         self.file_fd = f.as_raw_fd();
         self.file = Some(f);
         self.file_open = true;
@@ -703,6 +735,13 @@ impl System for USys {
             f.write_at(b"abcd", 0).unwrap();
             f.sync_all().unwrap();
             sfs::sync_dir("/").unwrap();
+            let mode = handle_mode_of(&cfg.name);
+            let f = if mode == 0 {
+                f
+            } else {
+                drop(f);
+                sfs::OpenOptions::new().read(mode != 2).write(mode != 1).open("/f").expect("reopen /f with restricted access")
+            };
             s.file_fd = f.as_raw_fd();
             s.file = Some(f);
             for _ in 0..cfg.rings {
